@@ -20,7 +20,7 @@ def stage_requests(texts):
 def run_stages(texts):
     """Returns list of (impl_line, model_line) with panics canonicalised."""
     reqs = stage_requests(texts)
-    impl = [kv.canon_panic(x) for x in kv.run_impl("stages", reqs)]
+    impl = [canon_line(kv.canon_panic(x)) for x in kv.run_impl("stages", reqs)]
     model = [kv.canon_panic(x) for x in kv.run_model("stages", reqs)]
     return list(zip(impl, model))
 
@@ -51,6 +51,13 @@ ERR_HEADS = ["Lex", "Parse", "NoStartSymbol", "MultipleStartSymbols", "NoTermina
              "SymbolOrTerminalEnumNameFirstLetterNotUppercase", "FieldFirstLetterNotLowercase", "NameClash",
              "NonterminalEnumVariantNameClash", "NonterminalEnumVariantSymbolSequenceClash", "UndefinedNonterminal",
              "UndefinedTerminal", "TableConflict", "panic", "timeout", "died"]
+
+
+def canon_line(line):
+    """`(timeout)` answers of the harness watchdog, in the shape of a staged answer."""
+    if line.startswith("(timeout"):
+        return "(stages (timeout))"
+    return line
 
 
 def outcome(parts):
